@@ -76,6 +76,9 @@ def run(ctx):
     ctx.rule('R-C15d', 'ENOSYS fallbacks reach their alternative in the same invocation and demote their one-way flag', floor=6)
     ctx.rule('R-C15e', 'exclusion list: every candidate method is considered through the same exclusion test with the same list; failure to '
                        'initialise any method is the only fatal outcome', floor=4)
+    ctx.rule('R-C15f', 'a mid-run fallback is honoured by the caller: the result of arming the kernel timer is propagated and a "not armed" '
+                       'answer makes the loop wait with the deadline itself (shared with C04 R-C04f)', floor=3)
+    ctx.section(lambda c: __import__('ivy.rules.c04', fromlist=['x']).keep_armed(c, 'R-C15f'))
     ctx.section(vtable)
     ctx.section(fallbacks)
     ctx.section(eintr)
